@@ -767,7 +767,11 @@ func (w *Proxy) checkC14() {
 					break
 				}
 			}
-			if sendHijacker != "" && len(sends) >= len(sendFilters) && r.ClientLeftAt == 0 && !r.Oneway && end == "forward" {
+			raced := false // (the known retry / timer races of a run decide on their own which reply goes out)
+			for _, f := range []string{"race:pertry_timer_parked_across_worker_step", "race:global_timer_before_retry", "race:response_parked_across_timer"} {
+				raced = raced || s.Faults[f] > 0
+			}
+			if sendHijacker != "" && len(sends) >= len(sendFilters) && r.ClientLeftAt == 0 && !r.Oneway && end == "forward" && !raced {
 				okReply := len(r.Replies) == 1 && r.Replies[0].Tok == "" && string(r.Replies[0].Body) == "send-hijack-"+sendHijacker
 				if okReply && r.Proto == "http1" {
 					okReply = r.Replies[0].Status == 403
